@@ -571,6 +571,32 @@ def check_f(ck, repo):
     ck.verdict(same and distinct, "C06.f", fi, got["cluster_centers_"][0], f"centres, labels and inertia are elements {ks} of the same run under the same facts", f"self.cluster_centers_, self.labels_ and self.inertia_ are not taken from one and the same run: " + "; ".join(f"{a_}: element {ks[a_]} when {sorted(t for t, p in next(iter(sig[a_]))[0] if 'inertia' in t)[:2] or 'always (the last run)'}" for a_ in sorted(sig)) + ": labels and inertia can describe other centres than the ones stored")
 
 
+def check_constraints(ck, repo):
+    """C06.a (validation table): scikit-learn's fit validates the parameters against the class-level
+    `_parameter_constraints`.  The subclass may add entries for its own parameters only: an entry for a
+    parameter of KMeans replaces the parent's and makes norm='L2' refuse (or accept) values that
+    KMeans accepts (or refuses)."""
+    ci = repo.cls(MOD, "KMeansL1L2")
+    got = extsrc.find_method("sklearn.cluster.KMeans", "__init__")
+    if got is None:
+        ck.unknown("C06.a", None, "_parameter_constraints", "cannot read the installed scikit-learn source", file=ci.module.relpath, function="KMeansL1L2", line=ci.node.lineno)
+        return
+    parent_params = {a.arg for a in got[0].args.args + got[0].args.kwonlyargs} - {"self"}
+    tabs = [s_ for s_ in ci.node.body if isinstance(s_, ast.Assign) and any(isinstance(t, ast.Name) and t.id == "_parameter_constraints" for t in s_.targets)]
+    late = [s_ for s_ in ast.walk(ci.module.tree) if isinstance(s_, (ast.Assign, ast.AugAssign, ast.Expr)) and "_parameter_constraints" in src_of(s_) and s_ not in tabs and "KMeansL1L2" in src_of(s_)]
+    for s_ in tabs:
+        v = s_.value
+        if not isinstance(v, ast.Dict):
+            ck.unknown("C06.a", None, s_, "the validation table is not a dict display: its entries are not read", file=ci.module.relpath, function="KMeansL1L2", line=s_.lineno)
+            continue
+        own = [k.value for k in v.keys if isinstance(k, ast.Constant)]
+        inherits = any(k is None and "KMeans" in src_of(val) and "_parameter_constraints" in src_of(val) for k, val in zip(v.keys, v.values))
+        over = sorted(set(own) & parent_params)
+        ck.verdict(inherits and not over, "C06.a", None, s_, f"the validation table is KMeans' plus entries for {sorted(own)}", (f"the validation table replaces KMeans' entry for {over}: with norm='L2' values of {over} that KMeans accepts are refused at fit (or the reverse), so the L2 case is not scikit-learn's KMeans" if over else "the validation table does not start from KMeans._parameter_constraints: parameters of KMeans are validated by other rules than KMeans' own"), file=ci.module.relpath, function="KMeansL1L2", line=s_.lineno)
+    for s_ in late:
+        ck.unknown("C06.a", None, s_, "the validation table is modified outside the class body", file=ci.module.relpath, function="KMeansL1L2", line=s_.lineno)
+
+
 def run(ck):
     repo = ck.repo
     for k, v in RULES.items():
@@ -581,6 +607,7 @@ def run(ck):
     check_b(ck, repo)
     check_c(ck, repo)
     check_d(ck, repo)
+    check_constraints(ck, repo)
     check_f(ck, repo)
     from .sem import share_clauses
 
